@@ -31,10 +31,12 @@ CONSTANTS
     Faults,          \* k values for fail_at: the k-th next terminal call fails (once / sticky); {} = no faults
     Pre,             \* bars already added (Multi) when the enumeration starts
     Once,            \* TRUE: finish-type operations only on unfinished bars (keeps focused families small)
+    Cover,           \* TRUE: explore distinct (contract, implementation-shaped) states and print the shortest history to each
     TabWs            \* initial tab widths given through with_tab_width (8 = default, builder not called)
 
-VARIABLES S, hist, nlog, done
-vars == <<S, hist, nlog, done>>
+VARIABLES S, hist, nlog, done, I
+vars == <<S, hist, nlog, done, I>>
+I0 == [ord |-> <<>>, zl |-> 0, ll |-> 0]
 
 Run(n, base) == [j \in 1..n |-> base + ((j - 1) % 20)]
 
@@ -166,32 +168,85 @@ RECURSIVE PreState(_, _, _)
 PreState(S0, ops, i) == IF i > Len(ops) THEN S0 ELSE PreState(Apply(S0, Full(ops[i])).S, ops, i + 1)
 
 Init == /\ S = PreState(SInit(W, H, Multi, Multi /\ Tgt \in {"hidden", "pipe"}, Align), PreOps(Pre), 1) /\ hist = PreOps(Pre) /\ nlog = 0 /\ done = FALSE
+        /\ I = [I0 EXCEPT !.ord = [j \in 1..Pre |-> [b |-> j, z |-> FALSE]]]
 
 Dead == ~Multi /\ S.ids # {} /\ AliveBars = {}
 
 Cfg == [w |-> W, h |-> H, base |-> Base] @@
        (IF Multi THEN [mp |-> [target |-> TargetName, hz |-> Hz, align |-> Align]] ELSE <<>>)
 
+(* ---------------------------------------------------------------------- *)
+(* IMPLEMENTATION-SHAPED abstraction of MultiState + its draw target, used  *)
+(* as part of the VIEW when Cover = TRUE so that histories which differ in  *)
+(* the library's own book-keeping (not only in the contract state) are all  *)
+(* explored: ord = `ordering` with the zombie flags, zl = zombie_lines_count,*)
+(* ll = last_line_count (rows).  One action per critical section:           *)
+(* Paint = MultiState::draw (reap head zombies, println clears the zombie   *)
+(* lines), Zombie = mark_zombie, Clear = MultiState::clear.                 *)
+RowsB(S1, b) == IF S1.bars[b].drawn THEN RowsOf(S1.bars[b].pend, W) ELSE 0
+RECURSIVE SumRows(_, _, _)
+SumRows(S1, o, j) == IF j > Len(o) THEN 0 ELSE RowsB(S1, o[j].b) + SumRows(S1, o, j + 1)
+RECURSIVE Heads(_)
+Heads(o) == IF o # <<>> /\ o[1].z THEN <<o[1]>> \o Heads(Tail(o)) ELSE <<>>
+IPaint(i, S1, text) ==
+    LET hs == Heads(i.ord)
+        adj == SumRows(S1, hs, 1)
+        total == SumRows(S1, i.ord, 1)
+    IN [ord |-> SubSeq(i.ord, Len(hs) + 1, Len(i.ord)), zl |-> IF text THEN 0 ELSE i.zl + adj, ll |-> IF text THEN total ELSE total - adj]
+IZombie(i, S1, b) ==
+    IF i.ord # <<>> /\ i.ord[1].b = b
+    THEN LET r == RowsB(S1, b) IN [ord |-> Tail(i.ord), zl |-> i.zl + Min(r, i.ll), ll |-> IF i.ll >= r THEN i.ll - r ELSE 0]
+    ELSE [i EXCEPT !.ord = [j \in 1..Len(i.ord) |-> IF i.ord[j].b = b THEN [b |-> b, z |-> TRUE] ELSE i.ord[j]]]
+IPos(o, b) == CHOOSE j \in 1..Len(o) : o[j].b = b
+IAdvance(i, o, S0, S1) ==
+    IF ~Multi THEN i
+    ELSE LET nb == [b |-> o.b, z |-> FALSE]
+             inord == o.b # 0 /\ \E j \in 1..Len(i.ord) : i.ord[j].b = o.b
+         IN CASE o.op = "add" -> [i EXCEPT !.ord = Append(i.ord, nb)]
+              [] o.op = "insert" -> [i EXCEPT !.ord = InsertAt(i.ord, Min(o.idx, Len(i.ord)), nb)]
+              [] o.op = "insert_from_back" -> [i EXCEPT !.ord = InsertAt(i.ord, SatSub(Len(i.ord), o.idx), nb)]
+              [] o.op = "insert_before" -> [i EXCEPT !.ord = InsertAt(i.ord, IPos(i.ord, o.b2) - 1, nb)]
+              [] o.op = "insert_after" -> [i EXCEPT !.ord = InsertAt(i.ord, IPos(i.ord, o.b2), nb)]
+              [] o.op = "mp_remove" -> [i EXCEPT !.ord = SelectSeq(i.ord, LAMBDA e : e.b # o.b)]
+              [] o.op = "mp_clear" -> [i EXCEPT !.zl = 0, !.ll = 0]
+              [] o.op \in {"mp_println", "println"} -> IF o.op = "println" /\ ~inord THEN i ELSE IPaint(i, S1, TRUE)
+              [] o.op \in {"mp_suspend", "suspend"} -> IPaint([i EXCEPT !.zl = 0, !.ll = 0], S1, FALSE)
+              [] o.op = "drop" -> IF ~inord THEN i
+                                  ELSE IZombie(IF S0.bars[o.b].fin = "no" THEN IPaint(i, S1, FALSE) ELSE i, S1, o.b)
+              [] o.op \in {"set_style", "clone", "drop_one", "mp_set_alignment", "reset_eta", "reset_elapsed", "fail_at"} -> i
+              [] OTHER -> IF inord THEN IPaint(i, S1, FALSE) ELSE i
+
 Step == /\ Len(hist) < D
         /\ ~Dead
-        /\ \E o \in OpsNow :
-              /\ S' = Advance(o)
+        /\ ~done
+        /\ \E o \in OpsNow : \E S1 \in {Advance(o)} :
+              /\ S' = S1
+              /\ I' = IAdvance(I, Full(o), S, S1)
               /\ hist' = Append(hist, o)
               /\ nlog' = nlog + (IF o.op \in {"println", "suspend", "mp_println", "mp_suspend"} THEN 1 ELSE 0)
+              (* Cover: every transition out of every distinct state is printed (a transition cover: *)
+              (* the last step matters even when it leads to a state that is already known)          *)
+              /\ (Cover => PrintT(<<"REPLAY", ToJson([cfg |-> Cfg, ops |-> Append(hist, o)])>>))
         /\ UNCHANGED done
 
 (* A finished history is printed when the state that ends it is expanded:  *)
 (* once per history under breadth-first search, and once per behaviour     *)
-(* (not once per candidate successor) under -simulate.                     *)
-Finish == /\ (Len(hist) = D \/ Dead)
+(* (not once per candidate successor) under -simulate.  With Cover = TRUE   *)
+(* the transitions are printed in Step instead.                             *)
+Finish == /\ ~Cover /\ (Len(hist) = D \/ Dead)
           /\ ~done
           /\ PrintT(<<"REPLAY", ToJson([cfg |-> Cfg, ops |-> hist])>>)
           /\ done' = TRUE
-          /\ UNCHANGED <<S, hist, nlog>>
+          /\ UNCHANGED <<S, hist, nlog, I>>
 
 Next == Step \/ Finish
 
 Spec == Init /\ [][Next]_vars
+
+(* the last two operations are part of the view: two histories that the reference book-keeping  *)
+(* does not distinguish may still differ for a changed implementation in their last steps        *)
+Last2 == [j \in 1..Min(2, Len(hist)) |-> <<hist[Len(hist) - Min(2, Len(hist)) + j].op, hist[Len(hist) - Min(2, Len(hist)) + j].b>>]
+CoverView == <<S, I, nlog, done, Last2>>
 
 (* structural invariants of the contract state *)
 NoDup(seq) == \A p, q \in 1..Len(seq) : p # q => seq[p] # seq[q]
